@@ -125,6 +125,12 @@ def systematic_cases(rng):
                                                                {"f": [[5, 0, 0, 0, 0, 0, 0, 0], v]})
                             out.append({"type": tt, "value": vv, "form": form, "prep": dict(prep, kind=rng.choice(["numpy", "bytearray"])),
                                         "placement": ["default"], "xobj_other_buffer": rng.random() < 0.5})
+    F64 = {"k": "scalar", "name": "Float64"}
+    for nfields in (4, 1, 2):
+        it = {"k": "struct", "name": "SItemSameName", "fields": [["f%d" % j, F64] for j in range(nfields)]}
+        t = {"k": "array", "item": it, "shape": [None, None], "order": [0, 1]}
+        v = {"shape": [2, 3], "items": [{"f": [[(i + j) & 255] + [0] * 7 for j in range(nfields)]} for i in range(6)]}
+        out.append({"type": t, "value": v, "form": "py", "prep": dict(prep), "placement": ["default"], "xobj_other_buffer": False})
     for t, dims in (({"k": "array", "item": {"k": "scalar", "name": "Float64"}, "shape": [40], "order": [0]}, [40]),
                     ({"k": "array", "item": {"k": "scalar", "name": "Int32"}, "shape": [None, 3, 3], "order": [0, 1, 2]}, [5, 3, 3])):
         n = 1
@@ -388,6 +394,11 @@ def run(ctx):
         ub = c_update.BUDGET[ctx.tier]
         extra, aucov = c_update.c03_update_histories(ctx, max(80, ub["n"] // 3), ub["depth"], ub["nops"], ub["shards"])
         refcov = dict(refcov or {}); refcov.update(aucov)
+        for sig, what, rep in extra:
+            found = True
+            report(ctx, sig, what, rep)
+        extra, pccov3 = c_update.c09_part_copies(ctx, max(120, ub["n"] // 3), 3, ub["shards"], pid="C03")
+        refcov.update({"part_copies_for_C03": pccov3.get("part_copies")})
         for sig, what, rep in extra:
             found = True
             report(ctx, sig, what, rep)
